@@ -124,7 +124,35 @@ def scipy_qr_stub(a, *args, **kw):
     return npx.SArr(_obj(Q), float), npx.SArr(_obj(R), float)
 
 
+def _closed_form_cholesky(a):
+    """generic fallback for n <= 2 when the harness did not construct A0 from its factor:
+    L00 = sqrt(a00), L10 = a10 / L00, L11 = sqrt(a11 - L10^2) (sqrt atoms, arguments noted positive)"""
+    a = _obj(a)
+    n = a.shape[0]
+    if a.shape != (n, n) or n > 2:
+        raise S.SymError('cholesky stub: no registered factor and n > 2')
+    L = np.empty((n, n), dtype=object)
+    for i in range(n):
+        for j in range(n):
+            L[i, j] = S.const(0)
+    L[0, 0] = S.lift(a[0, 0]).sqrt()
+    if n == 2:
+        L[1, 0] = S.lift(a[1, 0]) / L[0, 0]
+        L[1, 1] = (S.lift(a[1, 1]) - L[1, 0] * L[1, 0]).sqrt()
+    return L
+
+
 def cholesky_stub(a, *args, **kw):
+    if ('cholesky', _key(a)) not in REGISTRY:
+        npx._hit('cholesky(closed form, n<=2)')
+        ctx = S.current_ctx()
+        if ctx is not None:
+            ctx.spec_depth += 1
+        try:
+            return npx.SArr(_closed_form_cholesky(a), float)
+        finally:
+            if ctx is not None:
+                ctx.spec_depth -= 1
     return npx.SArr(_obj(_lookup('cholesky', a)), float)
 
 
